@@ -452,12 +452,12 @@ func regexpPatternsUsedBy(c *km.Ctx, fn *ssa.Function) []string {
 		if n != "regexp.MustCompile" && n != "regexp.Compile" && n != "regexp.MustCompilePOSIX" {
 			return "", false
 		}
-		return km.ConstString(cl.Common().Args[0])
+		return evalString(c, cl.Common().Args[0], 0)
 	}
 	for _, ci := range km.CallsIn(fn) {
 		n := km.CalleeFull(ci.Common())
 		if n == "regexp.MatchString" || n == "regexp.MustCompile" || n == "regexp.Compile" || n == "regexp.Match" {
-			if pat, ok := km.ConstString(ci.Common().Args[0]); ok {
+			if pat, ok := evalString(c, ci.Common().Args[0], 0); ok {
 				out = appendUniq(out, pat)
 			}
 			continue
